@@ -137,7 +137,8 @@ class BrownianStock(BasePrimary):
 
         spot = generate_geometric_brownian(
             n_paths=n_paths,
-            n_steps=ceil(time_horizon / self.dt + 1),
+            # (round: time_horizon / dt may land just above an integer, e.g. (6 * 0.1) / 0.1)
+            n_steps=ceil(round(time_horizon / self.dt, 9) + 1),
             init_state=init_state,
             sigma=self.sigma,
             mu=self.mu,
